@@ -11,3 +11,4 @@ import NbioVerif.Properties.C14
 #print axioms SendQ.c14_queued_never_cut
 #print axioms SendQ.c14_direct_cut_means_dead
 #print axioms SendQ.c14_bounded_queue_partial_counterexample
+#print axioms WsCb.c14_transfer_open_race_counterexample
